@@ -19,7 +19,9 @@ pub use cardinality::{CardinalityEstimator, ColumnStats, TableStats};
 pub use cost::{Cost, CostModel};
 pub use join_order::{BitSet, DPccp, JoinGraph, JoinGraphBuilder, JoinPlan};
 
-use crate::query::plan::{FilterOp, LogicalExpression, LogicalOperator, LogicalPlan};
+use crate::query::plan::{
+    FilterOp, LogicalExpression, LogicalOperator, LogicalPlan, TripleComponent,
+};
 use grafeo_common::utils::error::Result;
 use std::collections::HashSet;
 
@@ -783,9 +785,15 @@ impl Optimizer {
         match op {
             LogicalOperator::NodeScan(scan) => {
                 vars.insert(scan.variable.clone());
+                if let Some(input) = &scan.input {
+                    Self::collect_output_variables_recursive(input, vars);
+                }
             }
             LogicalOperator::EdgeScan(scan) => {
                 vars.insert(scan.variable.clone());
+                if let Some(input) = &scan.input {
+                    Self::collect_output_variables_recursive(input, vars);
+                }
             }
             LogicalOperator::Expand(expand) => {
                 vars.insert(expand.to_variable.clone());
@@ -833,6 +841,89 @@ impl Optimizer {
             }
             LogicalOperator::Distinct(distinct) => {
                 Self::collect_output_variables_recursive(&distinct.input, vars);
+            }
+            LogicalOperator::LeftJoin(join) => {
+                Self::collect_output_variables_recursive(&join.left, vars);
+                Self::collect_output_variables_recursive(&join.right, vars);
+            }
+            LogicalOperator::AntiJoin(join) => {
+                // Only the left side's columns survive an anti join
+                Self::collect_output_variables_recursive(&join.left, vars);
+            }
+            LogicalOperator::Union(union) => {
+                for input in &union.inputs {
+                    Self::collect_output_variables_recursive(input, vars);
+                }
+            }
+            LogicalOperator::Unwind(unwind) => {
+                vars.insert(unwind.variable.clone());
+                Self::collect_output_variables_recursive(&unwind.input, vars);
+            }
+            LogicalOperator::Bind(bind) => {
+                vars.insert(bind.variable.clone());
+                Self::collect_output_variables_recursive(&bind.input, vars);
+            }
+            LogicalOperator::ShortestPath(sp) => {
+                vars.insert(sp.path_alias.clone());
+                Self::collect_output_variables_recursive(&sp.input, vars);
+            }
+            LogicalOperator::VectorScan(scan) => {
+                vars.insert(scan.variable.clone());
+                if let Some(input) = &scan.input {
+                    Self::collect_output_variables_recursive(input, vars);
+                }
+            }
+            LogicalOperator::VectorJoin(join) => {
+                vars.insert(join.right_variable.clone());
+                if let Some(score) = &join.score_variable {
+                    vars.insert(score.clone());
+                }
+                Self::collect_output_variables_recursive(&join.input, vars);
+            }
+            LogicalOperator::TripleScan(scan) => {
+                let graph = scan.graph.as_ref();
+                for component in [&scan.subject, &scan.predicate, &scan.object]
+                    .into_iter()
+                    .chain(graph)
+                {
+                    if let TripleComponent::Variable(name) = component {
+                        vars.insert(name.clone());
+                    }
+                }
+                if let Some(input) = &scan.input {
+                    Self::collect_output_variables_recursive(input, vars);
+                }
+            }
+            LogicalOperator::CreateNode(create) => {
+                vars.insert(create.variable.clone());
+                if let Some(input) = &create.input {
+                    Self::collect_output_variables_recursive(input, vars);
+                }
+            }
+            LogicalOperator::CreateEdge(create) => {
+                if let Some(var) = &create.variable {
+                    vars.insert(var.clone());
+                }
+                Self::collect_output_variables_recursive(&create.input, vars);
+            }
+            LogicalOperator::Merge(merge) => {
+                vars.insert(merge.variable.clone());
+                Self::collect_output_variables_recursive(&merge.input, vars);
+            }
+            LogicalOperator::DeleteNode(op) => {
+                Self::collect_output_variables_recursive(&op.input, vars);
+            }
+            LogicalOperator::DeleteEdge(op) => {
+                Self::collect_output_variables_recursive(&op.input, vars);
+            }
+            LogicalOperator::SetProperty(op) => {
+                Self::collect_output_variables_recursive(&op.input, vars);
+            }
+            LogicalOperator::AddLabel(op) => {
+                Self::collect_output_variables_recursive(&op.input, vars);
+            }
+            LogicalOperator::RemoveLabel(op) => {
+                Self::collect_output_variables_recursive(&op.input, vars);
             }
             _ => {}
         }
